@@ -149,7 +149,8 @@ func runC05(s *kernel.Sim) {
 		f.resp = append(f.resp, loop...)
 		mutations = append(mutations, fmt.Sprintf("resp-loop-over-request-keys%v", loop))
 	}
-	if tp.Chance(1, 4) {
+	needF1 := false // a reference made on purpose to the second flow: that flow is loaded then
+	if tp.Chance(1, 3) {
 		// references to flows: to itself, to the second flow (when there is one), to a
 		// flow that does not exist; as the start of the request direction or as the
 		// target of a response connection, as in the shipped samples - or anywhere
@@ -163,7 +164,10 @@ func runC05(s *kernel.Sim) {
 				break
 			}
 			n := pool[tp.Choose(len(pool))]
-			switch tp.Choose(3) {
+			switch tp.Choose(4) {
+			case 3: // a request processor hands over to the second flow's start (that flow's end leads back here)
+				ref, inResp, needF1 = "f1", false, true
+				c = c04conn{from: n, cond: conds[tp.Choose(2)], toFlow: "f1@start"}
 			case 0: // sample shape
 				if inResp {
 					c = c04conn{from: n, toFlow: ref + "@start"}
@@ -260,7 +264,7 @@ func runC05(s *kernel.Sim) {
 		mutations = append(mutations, "duplicate-param")
 	}
 	files := map[string]string{"flows/f0.yaml": yaml}
-	if tp.Chance(1, 3) || queryBoth { // a second flow on the same URL, sometimes broken too
+	if tp.Chance(1, 3) || queryBoth || needF1 { // a second flow on the same URL, sometimes broken too
 		g := genC04Flow(tp, "f1")
 		if tp.Chance(1, 3) {
 			g.req = append(g.req, c04conn{from: "p1", cond: "hit", to: "p1"})
@@ -363,6 +367,23 @@ func runC05(s *kernel.Sim) {
 	setEngineEnv(dir)
 	// ---- R1: validation returns ----
 	s.Rule("R1")
+	// the order in which the flows are built is the runtime's map order in production:
+	// either one, for the dry run too (a flow that refers to another one needs it built first)
+	if _, two := files["flows/f1.yaml"]; two && tp.Chance(1, 2) {
+		s.OrderOn = func(point string, have []string) []string {
+			if point != "flow.build" {
+				return nil
+			}
+			out := []string{"f1", "f0"}
+			for _, n := range sortedCopy(have) {
+				if n != "f0" && n != "f1" {
+					out = append(out, n)
+				}
+			}
+			return out
+		}
+		s.Knobs["dry_run_builds_the_second_flow_first"] = true
+	}
 	var verr error
 	if p := guarded(func() { verr = validation.NewValidator().Validate() }); p != "" {
 		s.Violate("R1", "validation-panicked", "the dry-run validation panicked: %s; flow req=%v resp=%v mutations=%v", p, f.req, f.resp, mutations)
